@@ -1,5 +1,78 @@
-(** C01 -- placeholder while the proofs are being written. *)
-From Cicada Require Import Base.Chars Base.Tag Model.Tokenizer Model.Redirect.
-Example C01_smoke : parse_line [97%N; 32%N; 39%N; 98%N; 32%N; 99%N; 39%N] = [(TNone, [97%N]); (TSq, [98%N; 32%N; 99%N])].
-Proof. vm_compute. reflexivity. Qed.
-Print Assumptions C01_smoke.
+(** C01 -- quoted and escaped arguments reach the program verbatim.
+    Statements only; proofs in Proofs/{TokenizerProofs,RedirectProofs,CmdsProofs}.v.
+
+    Status. Proved for every command word and every list of single- or
+    double-quoted arguments (any texts, any number, any spacing):
+    tokenizing ([C01_tokenize]), planning ([C01_plan_quoted]: one foreground
+    command, words = the written texts, no pipe / background / redirection /
+    assignment), and list splitting ([C01_split]: quoted, escaped and
+    backquoted atoms never split a line).
+    NOT proved: the backslash-escaped style through the tokenizer. For that
+    style the full statement is false of the code -- [C01_esc_refuted] gives the
+    witnesses (classes esc-expanded, esc-amp-last of known_findings.txt) -- and
+    outside those classes it is carried by the correspondence check only.
+    The expansion passes enter [C01_plan_quoted] as a parameter that must be
+    inert on quoted tokens; their model belongs to C10-C12. *)
+From Cicada Require Import Base.Chars Base.Tag Model.Tokenizer Model.Redirect Model.Cmds
+  Proofs.TokenizerProofs Proofs.RedirectProofs Proofs.ListExecProofs Proofs.CmdsProofs.
+
+Theorem C01_tokenize : forall cmd (args : list (nat * qarg)),
+  plain_word cmd = true -> forallb arith_body cmd = false ->
+  forallb (fun '(_, a) => wf_qarg a) args = true ->
+  parse_line (render_cmd cmd args) = (TNone, cmd) :: map (fun '(_, a) => tok_of_qarg a) args.
+Proof. exact parse_line_quoted. Qed.
+
+Theorem C01_plan_quoted : forall (expand : list token -> list token) cmd (args : list (nat * qarg)),
+  plain_word cmd = true -> forallb arith_body cmd = false -> split_env cmd = None ->
+  forallb (fun '(_, a) => wf_qarg a) args = true -> inert expand cmd ->
+  plan_tokens (expand (parse_line (render_cmd cmd args))) =
+  inl (mkcl [mkc ((TNone, cmd) :: map (fun '(_, a) => tok_of_qarg a) args) [] None] [] false).
+Proof. exact plan_line_quoted. Qed.
+
+(** whatever the quoted tokens hold, the passes after expansion plan one command *)
+Theorem C01_post_passes : forall cmd l,
+  cmd_ok cmd = true -> forallb quoted_tok l = true ->
+  plan_tokens ((TNone, cmd) :: l) = inl (mkcl [mkc ((TNone, cmd) :: l) [] None] [] false).
+Proof. exact plan_quoted. Qed.
+
+(** a line made of plain, quoted, escaped and backquoted atoms is ONE list segment *)
+Theorem C01_split : forall ws0 seg ws_end,
+  forallb is_ws ws0 = true -> wf_seg seg = true -> forallb is_ws ws_end = true ->
+  line_to_cmds (ws0 ++ render_seg seg ++ ws_end) = [render_seg seg].
+Proof.
+  intros ws0 seg ws_end H0 Hs He.
+  exact (line_to_cmds_render ws0 seg [] ws_end H0 Hs eq_refl He).
+Qed.
+
+Check C01_tokenize : forall cmd (args : list (nat * qarg)),
+  plain_word cmd = true -> forallb arith_body cmd = false ->
+  forallb (fun '(_, a) => wf_qarg a) args = true ->
+  parse_line (render_cmd cmd args) = (TNone, cmd) :: map (fun '(_, a) => tok_of_qarg a) args.
+
+(** The escaped style: the full statement fails. After tokenizing, the word
+    written [a\$HOME] is the untagged text [a$HOME] (indistinguishable from an
+    unescaped reference), and [\&] in last position is the untagged word [&],
+    which the planner takes for the background marker. *)
+Local Open Scope N_scope.
+Theorem C01_esc_refuted :
+  (* prog a\$HOME  and  prog a$HOME  tokenize identically *)
+  parse_line [112;32;97;92;36;72] = parse_line [112;32;97;36;72] /\
+  (* prog x \&  is planned as  prog x  in the background *)
+  plan_tokens (parse_line [112;32;120;32;92;38]) =
+    inl (mkcl [mkc [(TNone, [112]); (TNone, [120])] [] None] [] true).
+Proof. split; vm_compute; reflexivity. Qed.
+
+(** Non-vacuity:  prog 'a|b;c' "x > y  &"   *)
+Example C01_nonvacuous :
+  let cmd := [112;114;111;103] in
+  let args := [(0%nat, QSq [97;124;98;59;99]); (2%nat, QDq [120;32;62;32;121;32;32;38])] in
+  plain_word cmd = true /\ forallb arith_body cmd = false /\ split_env cmd = None /\
+  forallb (fun '(_, a) => wf_qarg a) args = true /\
+  length (parse_line (render_cmd cmd args)) = 3%nat.
+Proof. vm_compute. repeat split. Qed.
+
+Print Assumptions C01_tokenize.
+Print Assumptions C01_plan_quoted.
+Print Assumptions C01_post_passes.
+Print Assumptions C01_split.
+Print Assumptions C01_esc_refuted.
